@@ -84,6 +84,19 @@ pub proof fn lemma_le_bytes_le_int(b: Seq<u8>)
     }
 }
 
+pub proof fn lemma_pow256_4()
+    ensures pow256(4) == 0x1_0000_0000
+{
+    assert(pow256(4) == 256 * 256 * 256 * 256) by (compute);
+}
+/// le32 is a 4-byte encoding whose value is x (hence injective)
+pub proof fn lemma_le32(x: u32)
+    ensures le32(x).len() == 4, le_int(le32(x)) == x as int
+{
+    lemma_pow256_4();
+    lemma_le_int_le_bytes(x as int, 4);
+}
+
 // ---------------------------------------------------------------- C08: frames
 pub proof fn C08_frame_roundtrip(b: Seq<u8>, rest: Seq<u8>)
     requires b.len() <= u32::MAX
@@ -92,7 +105,7 @@ pub proof fn C08_frame_roundtrip(b: Seq<u8>, rest: Seq<u8>)
         (frame(b) + rest).subrange(4 + b.len() as int, (frame(b) + rest).len() as int) == rest,
 {
     let f = frame(b) + rest;
-    lemma_auto_spec_u32_to_from_le_bytes();
+    lemma_le32(b.len() as u32);
     assert(f.subrange(0, 4) =~= le32(b.len() as u32));
     assert(f.subrange(4, 4 + b.len() as int) =~= b);
     assert(f.subrange(4 + b.len() as int, f.len() as int) =~= rest);
@@ -106,9 +119,11 @@ pub proof fn C08_frame_canonical(b: Seq<u8>)
         parse_frame(b).unwrap().len() <= u32::MAX,
 {
     let c = parse_frame(b).unwrap();
-    lemma_auto_spec_u32_to_from_le_bytes();
     let hdr = b.subrange(0, 4);
-    assert(spec_u32_to_le_bytes(spec_u32_from_le_bytes(hdr)) == hdr);
+    lemma_le_bytes_le_int(hdr);
+    lemma_le_int_bound(hdr);
+    lemma_pow256_4();
+    assert(le32(c.len() as u32) == hdr);
     assert(b =~= frame(c) + b.subrange(4 + c.len() as int, b.len() as int));
 }
 
@@ -116,10 +131,10 @@ pub proof fn C08_frame_canonical(b: Seq<u8>)
 // ---------------------------------------------------------------- C08: adss shares
 pub proof fn C08_share_roundtrip(t: u32, ss: Seq<u8>, c: Seq<u8>, d: Seq<u8>, j: Seq<u8>)
     requires ss.len() <= u32::MAX, c.len() <= u32::MAX, d.len() <= u32::MAX, j.len() == 64, ss_ok(ss)
-    ensures adss::parse_share(adss::layout_share(t, ss, c, d, j)) == Some((t, ss, c, d, j))
+    ensures adss::parse_share(adss::layout_share(t, ss, c, d, j)) == Some((t as int, ss, c, d, j))
 {
     let b = adss::layout_share(t, ss, c, d, j);
-    lemma_auto_spec_u32_to_from_le_bytes();
+    lemma_le32(t);
     let t3 = frame(d) + j;
     let t2 = frame(c) + t3;
     let t1 = frame(ss) + t2;
@@ -142,9 +157,8 @@ pub proof fn C08_share_roundtrip(t: u32, ss: Seq<u8>, c: Seq<u8>, d: Seq<u8>, j:
 /// (no byte of a share encoding is ignored at this level)
 pub proof fn C08_share_canonical(b: Seq<u8>)
     requires adss::parse_share(b).is_some()
-    ensures ({ let p = adss::parse_share(b).unwrap(); b == adss::layout_share(p.0, p.1, p.2, p.3, p.4) && p.4.len() == 64 && ss_ok(p.1) })
+    ensures ({ let p = adss::parse_share(b).unwrap(); 0 <= p.0 <= u32::MAX && b == adss::layout_share(p.0 as u32, p.1, p.2, p.3, p.4) && p.4.len() == 64 && ss_ok(p.1) })
 {
-    lemma_auto_spec_u32_to_from_le_bytes();
     let p = adss::parse_share(b).unwrap();
     let r1 = b.subrange(4, b.len() as int);
     C08_frame_canonical(r1);
@@ -154,9 +168,12 @@ pub proof fn C08_share_canonical(b: Seq<u8>)
     C08_frame_canonical(r3);
     let r4 = r3.subrange(4 + p.3.len() as int, r3.len() as int);
     let hdr = b.subrange(0, 4);
-    assert(spec_u32_to_le_bytes(spec_u32_from_le_bytes(hdr)) == hdr);
+    lemma_le_bytes_le_int(hdr);
+    lemma_le_int_bound(hdr);
+    lemma_pow256_4();
+    assert(le32(p.0 as u32) == hdr);
     assert(b =~= hdr + r1);
-    assert(b =~= adss::layout_share(p.0, p.1, p.2, p.3, p.4));
+    assert(b =~= adss::layout_share(p.0 as u32, p.1, p.2, p.3, p.4));
 }
 
 // ---------------------------------------------------------------- C08: sharks shares
@@ -280,6 +297,315 @@ pub proof fn C08_msg_canonical(b: Seq<u8>)
     C08_frame_canonical(r2);
     let l = sta_rs::layout_msg(q.0, q.1, q.2);
     assert(b.subrange(0, l.len() as int) =~= l);
+}
+
+
+// ---------------------------------------------------------------- T-shamir (ASSUMED, pure mathematics)
+/// Lagrange interpolation at zero through n = deg+1 points with pairwise distinct x on a polynomial
+/// with n coefficients returns its constant term.  Not machine-checked here (DESIGN.md section 4).
+pub axiom fn ax_shamir(coeffs: Seq<int>, xs: Seq<int>, ys: Seq<int>)
+    requires
+        coeffs.len() >= 1, xs.len() == coeffs.len(), ys.len() == xs.len(),
+        forall|i: int| 0 <= i < coeffs.len() ==> 0 <= #[trigger] coeffs[i] < P(),
+        forall|i: int| 0 <= i < xs.len() ==> 0 <= #[trigger] xs[i] < P(),
+        forall|i: int, j: int| 0 <= i < j < xs.len() ==> xs[i] != xs[j],
+        forall|i: int| 0 <= i < xs.len() ==> #[trigger] ys[i] == horner(coeffs, xs[i]),
+    ensures lagrange0(xs, ys, xs.len() as int) == coeffs.last();
+
+// ---------------------------------------------------------------- dedup facts
+pub open spec fn has_x(sh: Seq<Share>, n: int, v: int) -> bool {
+    exists|k: int| 0 <= k < n && fv(#[trigger] sh[k].x) == v
+}
+
+/// every element of dedup(sh) is an element of sh
+pub proof fn lemma_dedup_subset(sh: Seq<Share>, i: int) -> (k: int)
+    requires 0 <= i < dedup(sh).len()
+    ensures 0 <= k < sh.len(), sh[k] == dedup(sh)[i]
+    decreases sh.len()
+{
+    let pre = sh.drop_last();
+    let d = dedup(pre);
+    if i < d.len() {
+        let k = lemma_dedup_subset(pre, i);
+        assert(pre[k] == sh[k]);
+        k
+    } else {
+        sh.len() - 1
+    }
+}
+
+/// every x of sh occurs in dedup(sh)
+pub proof fn lemma_dedup_covers(sh: Seq<Share>, k: int) -> (i: int)
+    requires 0 <= k < sh.len()
+    ensures 0 <= i < dedup(sh).len(), fv(dedup(sh)[i].x) == fv(sh[k].x)
+    decreases sh.len()
+{
+    let pre = sh.drop_last();
+    let d = dedup(pre);
+    if k < pre.len() {
+        let i = lemma_dedup_covers(pre, k);
+        assert(pre[k] == sh[k]);
+        i
+    } else if exists|k2: int| 0 <= k2 < sh.len() - 1 && fv(#[trigger] sh[k2].x) == fv(sh.last().x) {
+        let k2 = choose|k2: int| 0 <= k2 < sh.len() - 1 && fv(#[trigger] sh[k2].x) == fv(sh.last().x);
+        let i = lemma_dedup_covers(pre, k2);
+        assert(pre[k2] == sh[k2]);
+        i
+    } else {
+        d.len() as int
+    }
+}
+
+/// the x values of dedup(sh) are pairwise distinct
+pub proof fn lemma_dedup_distinct(sh: Seq<Share>, i: int, j: int)
+    requires 0 <= i < j < dedup(sh).len()
+    ensures fv(dedup(sh)[i].x) != fv(dedup(sh)[j].x)
+    decreases sh.len()
+{
+    let pre = sh.drop_last();
+    let d = dedup(pre);
+    if j < d.len() {
+        lemma_dedup_distinct(pre, i, j);
+    } else {
+        // dedup(sh) == d.push(sh.last()) and sh.last() duplicates nothing in pre
+        let k = lemma_dedup_subset(pre, i);
+        assert(pre[k] == sh[k]);
+    }
+}
+
+// ---------------------------------------------------------------- byte-level facts about the 16-byte key
+pub proof fn lemma_le_int_append_zeros(a: Seq<u8>, n: nat)
+    ensures le_int(a + adss::zeros(n)) == le_int(a)
+    decreases a.len()
+{
+    let z = adss::zeros(n);
+    if a.len() == 0 {
+        assert(a + z =~= z);
+        lemma_le_int_zeros(n);
+    } else {
+        let b = a + z;
+        assert(b.subrange(1, b.len() as int) =~= a.subrange(1, a.len() as int) + z);
+        lemma_le_int_append_zeros(a.subrange(1, a.len() as int), n);
+    }
+}
+pub proof fn lemma_le_int_zeros(n: nat)
+    ensures le_int(adss::zeros(n)) == 0
+    decreases n
+{
+    if n > 0 {
+        let z = adss::zeros(n);
+        assert(z.subrange(1, z.len() as int) =~= adss::zeros((n - 1) as nat));
+        lemma_le_int_zeros((n - 1) as nat);
+    }
+}
+pub proof fn lemma_le_bytes_small(v: int, n: nat, m: nat)
+    requires 0 <= v < pow256(n)
+    ensures le_bytes(v, n + m) == le_bytes(v, n) + adss::zeros(m)
+    decreases n
+{
+    if n == 0 {
+        assert(v == 0);
+        lemma_le_bytes_zero(m);
+        assert(le_bytes(v, 0) + adss::zeros(m) =~= adss::zeros(m));
+    } else {
+        lemma_pow256_pos((n - 1) as nat);
+        assert(v / 256 < pow256((n - 1) as nat)) by (nonlinear_arith)
+            requires v < 256 * pow256((n - 1) as nat), 0 <= v;
+        lemma_le_bytes_small(v / 256, (n - 1) as nat, m);
+        assert(le_bytes(v, n + m) =~= le_bytes(v, n) + adss::zeros(m));
+    }
+}
+pub proof fn lemma_le_bytes_zero(m: nat)
+    ensures le_bytes(0, m) == adss::zeros(m)
+    decreases m
+{
+    if m > 0 {
+        lemma_le_bytes_zero((m - 1) as nat);
+        assert(le_bytes(0, m) =~= adss::zeros(m));
+    } else {
+        assert(le_bytes(0, m) =~= adss::zeros(m));
+    }
+}
+pub proof fn lemma_pow256_16_lt_p()
+    ensures pow256(16) < P()
+{
+    assert(pow256(16) == 256 * 256 * 256 * 256 * 256 * 256 * 256 * 256 * 256 * 256 * 256 * 256
+        * 256 * 256 * 256 * 256) by (compute);
+}
+
+/// the 32-byte dealer input K || 0^16 always decodes (so `share()` never fails), and its first
+/// element is the integer value of K
+pub proof fn lemma_kvec(K: Seq<u8>)
+    requires K.len() == 16
+    ensures
+        secret_ok(adss::kvec(K)),
+        adss::kvec(K).len() / 24 == 1,
+        le_int(chunk(adss::kvec(K), 0)) == le_int(K),
+        0 <= le_int(K) < P(),
+        le_bytes(le_int(K), 24).subrange(0, 16) == K,
+{
+    let kv = adss::kvec(K);
+    assert(chunk(kv, 0) =~= K + adss::zeros(8));
+    lemma_le_int_append_zeros(K, 8);
+    lemma_le_int_bound(K);
+    lemma_pow256_16_lt_p();
+    lemma_le_bytes_small(le_int(K), 16, 8);
+    lemma_le_bytes_le_int(K);
+    assert((K + adss::zeros(8)).subrange(0, 16) =~= K);
+    assert forall|j: int| 0 <= j < kv.len() / 24 implies elem_ok(#[trigger] chunk(kv, j)) by { }
+}
+
+// ---------------------------------------------------------------- C16 / C01 core: recovery
+/// coefficient values drawn for one polynomial are field values
+pub proof fn lemma_draws_range<R>(st: R, n: nat)
+    ensures draws::<R>(st, n).0.len() == n,
+        forall|i: int| 0 <= i < n ==> 0 <= #[trigger] draws::<R>(st, n).0[i] < P(),
+    decreases n
+{
+    broadcast use ax_fv_range;
+    if n > 0 { lemma_draws_range::<R>(st, (n - 1) as nat); }
+}
+
+/// C16 (and the core of C01): for every threshold t >= 1, message and coins of any length, any
+/// collection of shares of ONE sharing (t, M, R, default transcript) that contains t distinct
+/// evaluation points - in any order, with duplicates and surplus - recovers exactly (M, R).
+/// Uses S2 (duplex inverse) and T-shamir; no S5.
+pub proof fn C16_recover(t: u32, M: Seq<u8>, R: Seq<u8>, shs: Seq<adss::Share>)
+    requires
+        t >= 1, shs.len() >= 1,
+        forall|i: int| 0 <= i < shs.len() ==> adss::is_share_of(#[trigger] shs[i], t, M, R, s_new(b"adss"@)),
+        dedup(adss::s_parts(shs)).len() >= t,
+    ensures
+        adss::rec_spec(shs[0], adss::s_parts(shs)) == Some((M, R)),
+{
+    broadcast use {group_strobe, ax_fv_range};
+    let base = s_new(b"adss"@);
+    let tr = adss::tr_of(t, M, R, base);
+    let K = adss::K_of(tr);
+    let sp = adss::s_parts(shs);
+    let coeffs = adss::polys_of(t, tr)[0];
+    lemma_kvec(K);
+    // shape of the sharing polynomial
+    let rng0 = adss::strobe_rng::StrobeRng { strobe: strobe_of(adss::L_of(tr)) };
+    let d0 = deal_spec::<adss::strobe_rng::StrobeRng>(t, adss::kvec(K), 0, rng0);
+    let c = draws::<adss::strobe_rng::StrobeRng>(d0.1, kk(t));
+    lemma_draws_range::<adss::strobe_rng::StrobeRng>(d0.1, kk(t));
+    assert(deal_spec::<adss::strobe_rng::StrobeRng>(t, adss::kvec(K), 1, rng0).0
+        == d0.0.push(c.0.push(le_int(chunk(adss::kvec(K), 0)))));
+    assert(coeffs == c.0.push(le_int(K)));
+    assert(coeffs.len() == t);
+    assert(coeffs.last() == le_int(K));
+    // every share is a point on it, with one y
+    assert forall|i: int| 0 <= i < sp.len() implies (#[trigger] sp[i]).y@.len() == 1
+        && fv(sp[i].y@[0]) == horner(coeffs, fv(sp[i].x)) by {
+        assert(adss::is_share_of(shs[i], t, M, R, base));
+    }
+    assert(lens_ok(sp));
+    assert(recover_ok(t, sp));
+    let dd = dedup(sp);
+    let pts = dd.take(t as int);
+    let xs = xs_of(pts);
+    let ys = col(pts, 0);
+    assert forall|i: int| 0 <= i < pts.len() implies (#[trigger] pts[i]).y@.len() == 1
+        && fv(pts[i].y@[0]) == horner(coeffs, fv(pts[i].x)) by {
+        let k = lemma_dedup_subset(sp, i);
+        assert(pts[i] == sp[k]);
+    }
+    assert forall|i: int| 0 <= i < xs.len() implies #[trigger] ys[i] == horner(coeffs, xs[i]) by {
+        assert(pts[i].y@.len() == 1);
+    }
+    assert forall|i: int, j: int| 0 <= i < j < xs.len() implies xs[i] != xs[j] by {
+        lemma_dedup_distinct(sp, i, j);
+    }
+    ax_shamir(coeffs, xs, ys);
+    // bytes returned by the sharks layer
+    assert(dd[0].y@.len() == 1) by { assert(pts[0] == dd[0]); }
+    let key = recover_bytes(t, sp);
+    assert(interp_bytes(pts, 0) =~= Seq::<u8>::empty());
+    assert(key =~= le_bytes(le_int(K), 24));
+    lemma_le_bytes_len(le_int(K), 24);
+    assert(key.subrange(0, 16) == K);
+    // decrypt and authenticate
+    assert(adss::is_share_of(shs[0], t, M, R, base));
+}
+
+/// C16: threshold 0 never recovers (whatever the shares)
+pub proof fn C16_zero(s: adss::Share, shs: Seq<Share>)
+    requires s.A.threshold == 0
+    ensures adss::rec_spec(s, shs).is_none()
+{
+}
+
+/// C02(a): fewer than t distinct points in the whole collection => error
+pub proof fn C02_subthreshold(s: adss::Share, shs: Seq<Share>)
+    requires dedup(shs).len() < s.A.threshold
+    ensures adss::rec_spec(s, shs).is_none()
+{
+}
+
+// ---------------------------------------------------------------- C05: authentication (uses S5 for the MAC)
+/// whatever the collection is, if recovery succeeds and the first share carries the
+/// authentication tag of an honest sharing (t0, M0, R0), the result is exactly (M0, R0) and the
+/// threshold recorded in the first share is t0 (C02(b): a rewritten threshold is rejected).
+pub proof fn C05_auth(s: adss::Share, shs: Seq<Share>, t0: u32, M0: Seq<u8>, R0: Seq<u8>)
+    requires
+        adss::rec_spec(s, shs).is_some(),
+        s.J@ == adss::J_of(adss::tr_of(t0, M0, R0, s_new(b"adss"@))),
+    ensures
+        adss::rec_spec(s, shs) == Some((M0, R0)),
+        s.A.threshold == t0,
+{
+    broadcast use group_s5;
+    lemma_le32(s.A.threshold);
+    lemma_le32(t0);
+    let r = adss::rec_spec(s, shs).unwrap();
+    let tr = adss::tr_of(s.A.threshold, r.0, r.1, s_new(b"adss"@));
+    let tr0 = adss::tr_of(t0, M0, R0, s_new(b"adss"@));
+    assert(adss::J_of(tr) == adss::J_of(tr0));
+    assert(tr == tr0);
+    assert(le32(s.A.threshold) == le32(t0));
+}
+
+/// alterations of the encrypted message / encrypted coins of the first share are rejected when the
+/// interpolated key is the honest one (with any other key the MAC check above applies)
+pub proof fn C05_auth_fields(s: adss::Share, shs: Seq<Share>, t0: u32, M0: Seq<u8>, R0: Seq<u8>)
+    requires
+        adss::rec_spec(s, shs).is_some(),
+        s.J@ == adss::J_of(adss::tr_of(t0, M0, R0, s_new(b"adss"@))),
+        recover_bytes(s.A.threshold, shs).subrange(0, 16) == adss::K_of(adss::tr_of(t0, M0, R0, s_new(b"adss"@))),
+    ensures
+        s.C@ == adss::C_of(adss::K_of(adss::tr_of(t0, M0, R0, s_new(b"adss"@))), M0),
+        s.D@ == adss::D_of(adss::K_of(adss::tr_of(t0, M0, R0, s_new(b"adss"@))), M0, R0),
+{
+    broadcast use group_strobe;
+    C05_auth(s, shs, t0, M0, R0);
+}
+
+/// C16: shares created under a different authenticated transcript are rejected
+pub proof fn C16_transcript(s: adss::Share, shs: Seq<Share>, t0: u32, M0: Seq<u8>, R0: Seq<u8>, base: ST)
+    requires
+        base != s_new(b"adss"@),
+        s.J@ == adss::J_of(adss::tr_of(t0, M0, R0, base)),
+    ensures adss::rec_spec(s, shs).is_none()
+{
+    broadcast use group_s5;
+    if adss::rec_spec(s, shs).is_some() {
+        let r = adss::rec_spec(s, shs).unwrap();
+        let tr = adss::tr_of(s.A.threshold, r.0, r.1, s_new(b"adss"@));
+        let tr0 = adss::tr_of(t0, M0, R0, base);
+        assert(adss::J_of(tr) == adss::J_of(tr0));
+        assert(tr == tr0);
+    }
+}
+
+// ---------------------------------------------------------------- vacuity guard
+/// must FAIL on every run: if the assumed theories were contradictory this would verify.  The
+/// driver treats "canary_must_fail_* verified" as a tooling error (exit 2).
+pub proof fn canary_must_fail_sta()
+    ensures false
+{
+    broadcast use {group_iter_seq, group_strobe, group_field, group_s5, ax_fv_inj, ax_finv,
+        adss::ax_det_strobe_rng, sta_rs::ax_fill_strobe_rng, adss::lemma_s_parts_ext};
 }
 
 } // mod lemmas
